@@ -670,8 +670,16 @@ func (w *World) undoBlock(n *Node, b *Block) {
 		w.lightUndo(n, b)
 	case "pollard", "mapfull", "mappartial":
 		prevRoots := padH(pre.Layout().Roots)
-		g := w.fp.begin("Undo", b.Dels, b.Proof.Targets, b.Proof.Proof, prevRoots)
-		err, _ := guard(func() error { return n.acc.Undo(uint64(len(b.Adds)), b.Proof, b.Dels, prevRoots) })
+		uproof := b.Proof
+		if !n.isPartial() && SubRng(b.Seed^uint64(n.idx+1)*0x0d0, "undoshape").Pct(30) {
+			// a full forest has every hash itself: the call shape with the block's
+			// targets only (the pointer forest never reads the proof hashes, the
+			// map forest says "since we're full, we can just build the proofs")
+			uproof = u.Proof{Targets: b.Proof.Targets}
+			w.stats.Reach["undo_with_targets_only"]++
+		}
+		g := w.fp.begin("Undo", b.Dels, uproof.Targets, uproof.Proof, prevRoots)
+		err, _ := guard(func() error { return n.acc.Undo(uint64(len(b.Adds)), uproof, b.Dels, prevRoots) })
 		g.end()
 		if err != nil {
 			w.violate(n, w.attr(n, "C06", "undo-err"), "undo-err", fmt.Sprintf("Undo of block %d failed: %v", b.ID, err))
